@@ -390,6 +390,7 @@ def _run_case(case, want_readback):
         # the step budget only has to tell a terminating call from a non-terminating one: it grows with the amount of data the
         # requests legitimately move (a target may return fragments of a dozen bytes; everything is read up to three times)
         harness.CURRENT["budget"] += _traffic_bound(p, reqs)
+        run.transient = any("tag" not in f.get("when", {}) for f in case.get("forced", []))   # the target refuses something once / by position
         if case["op"] == "read":
             _run_read(run, p, tgt, plc, reqs, forced_status)
         else:
@@ -457,7 +458,10 @@ def _run_read(run, p, tgt, plc, reqs, forced_status):
         if tag.error is not None:
             run.add("C03", "read.truthy-with-error", f"{name}: {tag!r}"[:300])
     # the caller owns the returned values: modify them in place, read again, and expect the controller's values again
-    valid = [(r, t) for r, t in zip(reqs, res) if not r.get("invalid") and t]
+    # (requests that failed the first time although they name something readable - a refusal the target made once - are asked again
+    # too: whatever the failed transfer left behind must not show in a later answer; their second answer is compared only if truthy)
+    valid = [(r, t) for r, t in zip(reqs, res) if not r.get("invalid")]
+    retried = {id(r) for r, t in valid if not t}
     if valid and len(valid) <= 12:
         from .refcodec import scramble
         for r, t in valid:
@@ -473,6 +477,8 @@ def _run_read(run, p, tgt, plc, reqs, forced_status):
                 if not tag and allowance > 0 and tag.error and "Insufficient Packet Space" in tag.error:
                     allowance -= 1
                     continue
+                if not tag and (id(r) in retried or getattr(run, "transient", False)):
+                    continue          # refused again, or the target's one refusal fell into this second call
                 if not tag or not ref_equal(tag.value, want):
                     run.add("C01", f"read.repeat.{kind_of(p, r)}", f"{render(r)}: a second read (after the caller modified the first result) returned {_short(tag.value if tag else tag)}, controller holds {_short(want)}"[:700])
 
